@@ -769,7 +769,8 @@ fn oracle_c06(c: &mut Case, evs: &[Evt], closed: &[u32], done: bool, raw_before:
             }
             _ => {}
         }
-        if Some(k) == first_unhandled && !s.in_poll {
+        // (which poll took a stop is only certain while no stop was sent from inside a poll in this case)
+        if Some(k) == first_unhandled && !c.stops.iter().any(|x| x.in_poll) {
             if !s.graceful && !(done && s.resolved.is_some()) {
                 t3.push(("C06".into(), format!("forced stop #{k} was received but the worker did not answer and finish in that poll")));
             }
@@ -804,7 +805,7 @@ fn oracle_c06(c: &mut Case, evs: &[Evt], closed: &[u32], done: bool, raw_before:
         t3.push(("C06".into(), format!("worker is shutting down but connection(s) {:?} are still in its channel after poll", c.queued)));
     }
     // stop always completes: polled promptly, the worker is done no later than t0 + (ceil(T/tick)+1)*tick
-    if c.prompt && !done {
+    if c.prompt && !done && !c.stops.iter().any(|x| x.in_poll) {
         let tick = 1000u64;
         let t0 = c.stops.iter().filter(|s| !matches!(s.resolved, Some('x'))).filter_map(|s| s.handled_at).max().unwrap_or(now);
         let bound = t0 + ((c.timeout + tick - 1) / tick + 1) * tick;
